@@ -210,6 +210,12 @@ impl HalfConnection {
 
             self.flush_alloc = self.flush_alloc.saturating_add(new_bytes).min(alloc_max);
 
+            if new_bytes == 0 {
+                // Less than one byte has accrued since the last fill: keep the reference time so
+                // that the interval accumulates instead of being rounded away on every step
+                return;
+            }
+
             //println!("dt: {}s, rtt: {:?}s, rate: {}B/s, new: {}B, max: {}B, val: {}B",
             //       delta_time, rtt_s, send_rate, new_bytes, alloc_max, self.flush_alloc);
         }
